@@ -47,6 +47,43 @@ def r1_raise_census(ctx, chk, rule="C06.1"):
     chk.extra["raise_sites"] = n
 
 
+def r1b_try_census(ctx, chk, rule="C06.1b"):
+    """No handler in the solver modules swallows or converts a validation / solver error: a handler that catches
+    ValueError, Exception, BaseException (or everything) must re-raise a ValueError."""
+    scope = shared.solver_scope(ctx)
+    n = 0
+    for f in scope:
+        for t in walk_no_nested_defs(f.node):
+            if not isinstance(t, ast.Try):
+                continue
+            for h in t.handlers:
+                n += 1
+                names = []
+                ty = h.type
+                if ty is None:
+                    names = ["<bare>"]
+                elif isinstance(ty, ast.Name):
+                    names = [ty.id]
+                elif isinstance(ty, ast.Tuple):
+                    names = [e.id for e in ty.elts if isinstance(e, ast.Name)]
+                broad = [x for x in names if x in ("<bare>", "Exception", "BaseException", "ValueError")]
+                reraises = [r for s in h.body for r in ast.walk(s) if isinstance(r, ast.Raise)]
+                ok_raise = reraises and all(r.exc is None or (isinstance(r.exc, ast.Call) and call_name(r.exc) == "ValueError") or
+                                            (isinstance(r.exc, ast.Name) and r.exc.id == h.name) for r in reraises) \
+                    and isinstance(h.body[-1], ast.Raise)
+                if broad and not ok_raise:
+                    chk.violation(rule, f.where(h), "`except %s` in %s does not re-raise: a validation or solver error is swallowed and solve() returns a result for a game it should reject" % (
+                        ", ".join(names), f.short), expected="no swallowing handler in the solver", found=norm_stmt(h.body[0]) if h.body else "pass",
+                        construct="%s swallows %s" % (f.short, ",".join(names)))
+                elif not broad and reraises and not ok_raise:
+                    chk.violation(rule, f.where(h), "`except %s` in %s re-raises something other than ValueError" % (", ".join(names), f.short), expected="ValueError", found=norm_stmt(reraises[0]),
+                                  construct="%s converts to non-ValueError" % f.short)
+                else:
+                    chk.ok(rule, f.where(h), "handler `except %s` %s" % (", ".join(names), "re-raises ValueError" if ok_raise else "catches a specific non-validation exception"))
+    if n == 0:
+        chk.ok(rule, "tad.py, reverse_dfs.py", "no try/except in any function reachable from solve(): no error can be swallowed or converted")
+
+
 def r2_no_solution(ctx, chk, rule="C06.2"):
     f = ctx.func(VIR)
     sx = SymX(ctx, f, "Solver", inline_depth=0).run()
@@ -405,6 +442,7 @@ def r3c_division(ctx, chk, rule="C06.3c"):
 
 def run(ctx, chk):
     r1_raise_census(ctx, chk)
+    r1b_try_census(ctx, chk)
     r2_no_solution(ctx, chk)
     r3a_definite_assignment(ctx, chk)
     r3b_constant_subscripts(ctx, chk)
